@@ -222,3 +222,93 @@ Proof.
 Qed.
 
 End Progress.
+
+(** * the model is never stuck for a reason of its own *)
+
+(** `add_node` reports an allocation (a slot id or OutOfMemory), nothing else *)
+Lemma alloc_obs c s t s' o : Alloc.step c good s (AAlloc t) = Some (s', o) -> exists oid pa, o = OAlloc oid pa.
+Proof.
+  intros H. cbn [Alloc.step] in H. destruct (nth_error (th s) t) as [l|]; [|discriminate].
+  unfold add_node, get_slot_from_shared in H.
+  cbn [v_oom_drift v_take_all v_cap_first good l_cur l_guard l_next l_init l_delta negb andb orb] in H.
+  repeat match type of H with
+         | (if ?b then _ else _) = Some _ => destruct b
+         | match ?x with _ => _ end = Some _ => destruct x
+         end; try discriminate; inversion H; eauto.
+Qed.
+
+Lemma nodup_nat_complete l : NoDup l -> nodup_nat l = true.
+Proof.
+  induction 1 as [|x l Hx Hn IH]; cbn [nodup_nat]; [reflexivity|]. rewrite IH, andb_true_r. apply negb_true_iff.
+  destruct (existsb (Nat.eqb x) l) eqn:E; [|reflexivity]. apply existsb_exists in E. destruct E as (y & Hy & Ey).
+  apply Nat.eqb_eq in Ey. subst. contradiction.
+Qed.
+
+Lemma ainv_term c s : AllocInv.AInv c s -> (1 <= term c)%N.
+Proof. intros (fs & ls & W). apply (w_term _ _ _ _ W). Qed.
+
+(** the slot id of a new node is not 0: the terminal slots come first *)
+Lemma alloc_id_pos c s t s' id pa : AllocInv.AInv c s -> Alloc.step c good s (AAlloc t) = Some (s', OAlloc (Some id) pa) ->
+  (term c <= id)%N /\ id <> 0%N.
+Proof.
+  intros HA H. destruct (alloc_safe _ _ _ _ _ _ HA H) as (Hr & _). split; [apply Hr|].
+  apply (in_arr_nonzero c id (ainv_term c s HA) Hr).
+Qed.
+
+(** the table's edge value of a stored node is a client's edge value to a node with a payload *)
+Lemma hd_stored i cn tok hd id ht : KLinkP (i_hs i) (i_own i) (i_nodes i) cn tok hd -> hfind id hd = Some ht ->
+  afind ht (i_hs i) = Some (Npos id) /\ afind ht (i_own i) = None /\ exists p rc, nget (i_nodes i) (Npos id) = Some (p, rc).
+Proof.
+  intros L H. destruct (kl_hd _ _ _ _ _ _ L _ _ (hfind_In _ _ _ H)) as [A B]. split; [exact A|]. split; [exact B|].
+  assert (Hc : cfind cn id <> None) by (apply (kl_dom _ _ _ _ _ _ L); congruence).
+  destruct (cfind cn id) as [nd|] eqn:E; [|congruence]. destruct (proj1 (kl_agree _ _ _ _ _ _ L) _ _ E) as [p Hp]. eauto.
+Qed.
+
+Section Total.
+Variable k : kind.
+Variable terms : list (N * N).
+Variable nl : nat.
+
+Notation CInv := (ConcProofs.CInv k terms nl).
+Notation kops := (kops k terms nl).
+Notation kstep := (kstep k terms nl).
+Notation KInv := (KInv k terms nl).
+
+(** (1) Conc's guard holds, the store accepts the script: [kfin] yields a state *)
+Theorem kstep_total c s a ops i' rs : KInv c s -> kops s a = Some ops -> irun c (k_i s) ops = Some (i', rs) ->
+  exists s' r, kfin s a i' rs = Some (s', r) /\ kstep c s a = Some (s', r, rs).
+Proof.
+  intros (HI & _ & _) Ho Hr.
+  assert (Hfin : exists s' r, kfin s a i' rs = Some (s', r)).
+  { destruct HI as (HA & _). destruct a; cbn [Core.kops kfin] in *.
+    - destruct (node_pre_b k terms nl (k_cn s) lvl ch); [|discriminate].
+      destruct (take_toks3 tid ch (k_tok s)) as [[hts tok1]|]; [|discriminate].
+      destruct (find_shape (k_cn s) lvl ch) as [id|]; [eauto|]. inversion Ho; subst ops. cbn [irun] in Hr.
+      destruct (istep c (k_i s) (IAdd tid (kh1 s) (kh2 s) (N.of_nat lvl) hts)) as [[i1 x]|] eqn:E; [|discriminate].
+      inversion Hr; subst i' rs. cbn [istep] in E.
+      destruct (_ && _ && _ && _ && _); [|discriminate].
+      destruct (Alloc.step c good (i_al (k_i s)) (AAlloc tid)) as [[al' [| |[fr|] pa| | |]]|] eqn:Hal; try discriminate.
+      + inversion E; subst i1 x. destruct (alloc_id_pos _ _ _ _ _ _ HA Hal) as [_ Hnz]. destruct fr as [|frp]; [congruence | eauto].
+      + destruct (release_all _ hts) as [[s2 lk]|]; [|discriminate]. inversion E; subst. eauto.
+    - destruct (eref e); eauto.
+    - destruct (eref e); [eauto|]. destruct (take_tok3 (tid, e) (k_tok s)) as [[h tok']|]; [eauto | discriminate].
+    - destruct (eref e); [eauto|]. destruct (take_tok3 (tid, e) (k_tok s)) as [[h tok']|]; [eauto | discriminate].
+    - destruct (is_bcdd k); [|discriminate].
+      destruct (eref e); [eauto|]. destruct (take_tok3 (tid, e) (k_tok s)) as [[h tok']|]; [eauto | discriminate].
+    - destruct (cfind (k_cn s) id) as [nd|]; [|discriminate]. destruct (hfind id (k_hd s)) as [ht|]; [|discriminate].
+      inversion Ho; subst ops. cbn [irun] in Hr.
+      destruct (istep c (k_i s) (IRemove t ht)) as [[i1 x]|] eqn:E; [|discriminate]. inversion Hr; subst i' rs.
+      cbn [istep] in E. destruct (client_h (k_i s) ht); [|discriminate].
+      destruct (afind ht (i_hs (k_i s))) as [j|]; [|discriminate].
+      destruct (nget (i_nodes (k_i s)) j) as [[p rc]|]; [|discriminate]. destruct (rc =? 1)%N.
+      + destruct (release_all _ _) as [[s1 lk]|]; [|discriminate].
+        destruct (Alloc.step c good (i_al s1) (AFree t j)) as [[al' o]|]; [|discriminate]. inversion E; subst. eauto.
+      + inversion E; subst. eauto.
+    - inversion Ho; subst ops. cbn [irun] in Hr.
+      destruct (istep c (k_i s) (IInternal a)) as [[i1 x]|] eqn:E; [|discriminate]. inversion Hr; subst i' rs.
+      cbn [istep] in E. destruct (internal a); [|discriminate].
+      destruct (Alloc.step c good (i_al (k_i s)) a) as [[al' ob]|]; [|discriminate]. inversion E; subst. eauto. }
+  destruct Hfin as (s' & r & Hf). exists s', r. split; [exact Hf|]. unfold Core.kstep. rewrite Ho, Hr, Hf. reflexivity.
+Qed.
+
+End Total.
